@@ -310,8 +310,10 @@ impl DIDUrl {
     let url: RelativeDIDUrl = {
       let mut url: RelativeDIDUrl = RelativeDIDUrl::new();
       url.set_path(Some(did_url.path()))?;
-      url.set_query(did_url.query())?;
-      url.set_fragment(did_url.fragment())?;
+      // Pass the delimiters along: the setters ignore one leading delimiter, which must not be taken
+      // from the query or fragment itself (`did:example:123??a` has the query `?a`).
+      url.set_query(did_url.query().map(|query| format!("?{query}")).as_deref())?;
+      url.set_fragment(did_url.fragment().map(|fragment| format!("#{fragment}")).as_deref())?;
       url
     };
 
